@@ -31,6 +31,9 @@ def num(x):
 
 def part_index(part):
     """Index encoded in the part's name by Gen: '<src>p_<n>' or '<src>p_<n>.<i>' (never the asset id: W3)."""
+    if isinstance(part, Batch):
+        # a batch made by a PartBatcher has a default name that carries its asset id: use its first leaf instead
+        return part_index(part.parts[0]) if part.parts else 0
     try:
         return int(part.name.split('_')[-1].split('.')[0])
     except ValueError:
